@@ -194,6 +194,7 @@ type Exec struct {
 	refAx   map[string]bool
 	known   map[string]bool
 	freshOnly map[string]bool
+	lockSeqBy map[string]int    // Unlock ordinal per lock (obligation names)
 	usedFns   map[string]bool   // spec fns applied while generating this function's obligations
 	drySorts  map[string]string // sorts of heap keys seen modified in loop dry runs
 	wfDone    map[string]bool   // heap versions that already carry the well-typed-heap fact
@@ -1272,6 +1273,10 @@ func (e *Exec) merge(a, b *State) *State {
 				other = bv(tFalse)
 			case strings.HasPrefix(s, "ncalls:"):
 				other = iv("0")
+			case strings.HasPrefix(s, "sent:"):
+				other = iv("0") // nothing sent on the other path
+			case strings.HasPrefix(s, "closed:"):
+				other = bv(tFalse) // not closed on the other path
 			default:
 				out.vars[s] = v // argument/result of a call that did not happen on the other path: arbitrary there
 				continue
